@@ -568,6 +568,8 @@ func (b *builder) addFixed() {
 		Method{Name: "Log", Params: []Param{{"args", slice(anyT)}}, Variadic: true},
 		Method{Name: "Sprintf", Params: []Param{{"format", str}, {"a", slice(anyT)}}, Results: []Param{{"", str}}, Variadic: true})
 	mk("FxVariadic",
+		Method{Name: "Chunks", Params: []Param{{"parts", slice(slice(basic("byte")))}}, Variadic: true},
+		Method{Name: "Hashes", Params: []Param{{"n", in}, {"hs", slice(&T{Kind: KArray, ArrLen: "32", Elem: basic("byte")})}}, Results: []Param{{"", er}}, Variadic: true},
 		Method{Name: "Fields", Params: []Param{{"", slice(str)}}, Variadic: true},
 		Method{Name: "Sum", Params: []Param{{"base", in}, {"more", slice(in)}}, Results: []Param{{"", in}}, Variadic: true})
 	mk("FxResource",
@@ -1004,6 +1006,9 @@ func NewMatrixTree(kind string, hz Hazards) *Tree {
 		t.Ifaces = append(t.Ifaces, &Iface{Name: "StGen", File: 0, Exportable: true, Tags: []string{"matrix"},
 			TParams: []TParam{{Name: "E", CKind: "depmethod", Constraint: pkgT(ca, ca.StrIf), Arg: pkgT(ca, ca.Num)}},
 			Methods: []Method{{Name: "Get", Params: []Param{{"id", basic("int")}}, Results: []Param{{"", e}}}}})
+		// a variadic parameter typed from a/client, requested before the interface that brings b/client
+		t.Ifaces = append(t.Ifaces, &Iface{Name: "StVar", File: 0, Exportable: true, Tags: []string{"matrix"},
+			Methods: []Method{{Name: "Fan", Params: []Param{{"primary", pkgT(ca, "Thing")}, {"extra", slice(pkgT(ca, "Thing"))}}, Variadic: true}}})
 		// a project-local package named sync, used without importing the std one
 		{
 			uid := b.nextUID()
@@ -1012,7 +1017,7 @@ func NewMatrixTree(kind string, hz Hazards) *Tree {
 			ls := t.Deps[len(t.Deps)-1]
 			t.Ifaces = append(t.Ifaces, &Iface{Name: "StSync", File: 1, Exportable: true, Tags: []string{"matrix"}, Methods: []Method{{Name: "Guard", Params: []Param{{"m", pkgT(ls, "Thing")}}, Results: []Param{{"", er}}}}})
 		}
-		t.FixedRequests = [][]string{{"StA", "StB"}, {"StB", "StA"}, {"StC", "StB"}, {"StA", "StC", "StB"}, {"StLogA", "StLogB"}, {"StLogB", "StLogA"}, {"StGen", "StB"}, {"StB", "StGen"}, {"StSync"}, {"StSync", "StA"}}
+		t.FixedRequests = [][]string{{"StA", "StB"}, {"StB", "StA"}, {"StC", "StB"}, {"StA", "StC", "StB"}, {"StLogA", "StLogB"}, {"StLogB", "StLogA"}, {"StGen", "StB"}, {"StB", "StGen"}, {"StSync"}, {"StSync", "StA"}, {"StVar", "StB"}, {"StB", "StVar"}}
 		if kind == "stale-regen" {
 			// regeneration corpus: without the parameters named like the re-aliased package (KF-regeneration-alias-feedback)
 			var keep []*Iface
